@@ -49,7 +49,9 @@ def check_C01(ctx, tier):
     S.rule_S_LOAD_DUMP(ctx, ctx.repo)      # load/dump copy values under the same key (used by the inductive argument)
     K.rule_K_OWN(ctx, ctx.repo)            # the key of a call does not depend on earlier calls (no aliasing of module-level state)
     G.rule_SIG(ctx, ctx.repo)              # arguments are filed under the parameter names of the callable that is actually called, inspected now
+    G.rule_K_CAPTURE(ctx, ctx.repo)        # ... and none of the user's keywords is captured on the way
     A.rule_A_FNAME(ctx, ctx.repo, A.Cache(ctx.repo, unroll=1))    # two keys never share an archive entry through a lossy entry name
+    A.rule_A_GLOBAL(ctx, ctx.repo)         # ... and two archives never share a store through a process-wide registry
     ctx.require_instances('W-KEY', 36, 'key uses')
     ctx.require_instances('W-ARGS', 12, 'evaluation sites')
     ctx.assume('an entry (k -> v) in memory or archive satisfies v = f(a) for K(a) = k at the start of the call (inductive hypothesis)')
@@ -65,6 +67,7 @@ def check_C02(ctx, tier):
         W.rule_W_EVAL1(ctx, d, paths)
         W.rule_W_MISS(ctx, d, paths)
         W.rule_W_DROP(ctx, d, paths)
+        W.rule_W_DROP_DUMPFAIL(ctx, d)
         W.rule_W_KEY(ctx, d, paths)
         W.rule_W_FRESH(ctx, d)
         if d.name == 'lfu_cache':
@@ -89,6 +92,7 @@ def check_C05(ctx, tier):
         W.rule_W_NEW(ctx, d)
         W.rule_W_STATE(ctx, d)
         W.rule_W_CLEAR(ctx, d)
+        W.rule_W_WRITERS(ctx, d)                   # an entry removed behind the bookkeeping's back leaves a stale victim: the next overflow evicts nothing
         if d.name == 'mru_cache':
             _sample_paths(ctx, d, paths, lambda o: o.kind == 'return' and any(e.kind == 'DEL' for e in o.st.events))
     ctx.assume('a victim popped from the bookkeeping is still resident (container invariant "bookkeeping subset of resident"; '
@@ -119,13 +123,16 @@ def check_C07(ctx, tier):
     for d, paths in _wrappers(ctx, tier):
         W.setup_abbrev(d)
         W.rule_W_DROP(ctx, d, paths)
+        W.rule_W_DROP_DUMPFAIL(ctx, d)
         W.rule_W_ARCH(ctx, d, paths)
         W.rule_W_WRITERS(ctx, d)
         W.rule_W_FRESH(ctx, d)
         if d.name == 'rr_cache':
             _sample_paths(ctx, d, paths, lambda o: o.kind == 'return' and any(e.kind == 'DUMP' for e in o.st.events))
     S.rule_S_LOAD_DUMP(ctx, ctx.repo)      # S-DUMP: dump(k) writes exactly {k: self[k]} for resident k and removes nothing
-    A.rule_A_PUBFAIL(ctx, ctx.repo, A.Cache(ctx.repo, unroll=1 if tier == 'quick' else 2))   # a failed write-back never replaces or removes what is archived
+    _ac = A.Cache(ctx.repo, unroll=1 if tier == 'quick' else 2)
+    A.rule_A_PUBFAIL(ctx, ctx.repo, _ac)   # a failed write-back never replaces or removes what is archived
+    A.rule_A_WRITEALL(ctx, ctx.repo, _ac)  # a dumped entry is written whatever the archive holds already
     return ('Every DEL(v)/CLEAR on a path with an archive attached is preceded by DUMP(v)/DUMP(*) with no intervening store; wrappers '
             'and management closures never touch the archive except through cache.dump/load.')
 
@@ -175,8 +182,9 @@ def check_C09(ctx, tier):
     K.rule_K_ORDER(ctx, ctx.repo)
     K.rule_K_DISPATCH(ctx, ctx.repo)
     K.rule_K_OWN(ctx, ctx.repo)
-    G.rule_G(ctx, ctx.repo, want=('G-VAL', 'G-PREC'))
     G.rule_SIG(ctx, ctx.repo)                      # positional values are filed under the names of the callable that is actually bound
+    G.rule_K_CAPTURE(ctx, ctx.repo)                # every keyword of the call travels to the key generation
+    G.rule_G(ctx, ctx.repo, want=('G-VAL', 'G-PREC'))
     G.rule_G_STALE(ctx, ctx.repo)
     for d, paths in _wrappers(ctx, tier):
         W.setup_abbrev(d)
@@ -193,8 +201,9 @@ def check_C10(ctx, tier):
     K.rule_K_DISPATCH(ctx, ctx.repo)
     K.rule_K_FAST(ctx, ctx.repo)
     K.rule_K_OWN(ctx, ctx.repo)
-    G.rule_G(ctx, ctx.repo, want=('G-VAL', 'G-PREC'))
     G.rule_SIG(ctx, ctx.repo)              # a positional value is never filed under a keyword-only / variadic name (two different calls would share a key)
+    G.rule_K_CAPTURE(ctx, ctx.repo)        # no function on the way captures a user keyword by name
+    G.rule_G(ctx, ctx.repo, want=('G-VAL', 'G-PREC'))
     ctx.assume('injectivity of repr/str/pickle of the argument values and fast-type unwrapping collisions are not decided')
     return ('Every positional argument and every (name, value) keyword item reaches the key whole on every path of keymap.encode/encrypt; '
             'typed keys append the types of all positional and all keyword values; a configured sentinel separates every two adjacent '
@@ -214,11 +223,11 @@ def check_C17(ctx, tier):
 
 
 def check_C11(ctx, tier):
-    G.rule_G_FORMS(ctx, ctx.repo)
+    G.rule_SIG(ctx, ctx.repo)
     G.rule_G_ZERO(ctx, ctx.repo)
     G.rule_G_STALE(ctx, ctx.repo)
+    G.rule_G_FORMS(ctx, ctx.repo)
     G.rule_G_FIELDS(ctx, ctx.repo)
-    G.rule_SIG(ctx, ctx.repo)
     G.rule_G(ctx, ctx.repo, want=('G-VAL',))       # everything that is not ignored still reaches the key
     K.rule_K_OWN(ctx, ctx.repo)                    # the decomposition of the ignore spec does not depend on earlier calls (module-level state)
     K.rule_K_REPR(ctx, ctx.repo)                   # the substitute NULL has a constant repr
@@ -240,6 +249,7 @@ def check_C19(ctx, tier):
     G.rule_SIG(ctx, ctx.repo)
     G.rule_V(ctx, ctx.repo)
     G.rule_G_STALE(ctx, ctx.repo)
+    G.rule_V_TRYRESET(ctx, ctx.repo)
     K.rule_K_OWN(ctx, ctx.repo)                    # signature() is free of cross-call state (a memoised argspec mutated in place changes later verdicts)
     ctx.assume("agreement of validate's individual binding checks with the interpreter (counting, partial bookkeeping) is value-level and not decided")
     return ('Necessary conditions for "validate/isvalid agree with Python\'s binding without calling the function": every rejection is a TypeError; '
@@ -273,6 +283,7 @@ def check_C08(ctx, tier):
     S.rule_S_SYNC(ctx, ctx.repo)
     S.rule_S_TOGGLE(ctx, ctx.repo)
     S.rule_S_NULL(ctx, ctx.repo)
+    A.rule_A_WRITEALL(ctx, ctx.repo, A.Cache(ctx.repo, unroll=1))     # what dump hands to archive.update is written, item for item
     ctx.assume('archive.update / __asdict__ / __getitem__ of each backend behave as dict operations (C03)')
     return ('class cache overrides no dict primitive; per-method archive effects equal the table (load reads, dump updates, sync '
             'clears?/updates/reads, toggles rebind, others none); load/dump transfer exactly {a: source[a]} per argument or the whole '
@@ -291,6 +302,9 @@ def check_C03(ctx, tier):
     A.rule_A_KEYERR_FOUND(ctx, ctx.repo, cache)
     A.rule_A_SQLFAIL(ctx, ctx.repo, cache)
     A.rule_A_POPKEYS(ctx, ctx.repo)               # the multi-key mutator fails before it removes anything
+    A.rule_A_GLOBAL(ctx, ctx.repo)                # archives of different names share nothing
+    A.rule_A_READFAIL(ctx, ctx.repo, cache)       # a store that cannot be decoded reads as empty / missing
+    A.rule_A_WRITEALL(ctx, ctx.repo, cache)       # every assignment reaches the store
     A.rule_A_EQ(ctx, ctx.repo, cache)
     A.rule_A_NOCACHE(ctx, ctx.repo, cache)        # every answer comes from the store: no handle-local table that a later delete / store leaves stale
     A.rule_A_FNAME(ctx, ctx.repo, cache, aliasing=True)     # distinct keys keep distinct entry names (no new information loss in the key -> name map)
@@ -362,9 +376,11 @@ def check_C20(ctx, tier):
         W.setup_abbrev(d)
         W.rule_W_RED(ctx, d)
         W.rule_W_LOCAL(ctx, d)
+        W.rule_W_CELLS(ctx, d)
     W.rule_W_BKPICKLE(ctx, ctx.repo)
     RR.rule_R_NONE(ctx, ctx.repo)
     A.rule_A_RED_COPY(ctx, ctx.repo, cache)
+    A.rule_A_FACTORY_OPEN(ctx, ctx.repo, cache, open_only=True, factories=False)  # unpickling re-runs the constructor on the shared store: it must not write it
     A.rule_A_EFF(ctx, ctx.repo, cache, must_read_only=True)     # clone and original share storage only: every read goes to the store, not to a process-wide table
     S.rule_S_RED(ctx, ctx.repo)
     K.rule_K_REPR(ctx, ctx.repo)      # K-SINGLETON: marker objects inside keys survive the round trip as themselves
